@@ -1,6 +1,6 @@
 /-
-  Helper lemmas for C17 (index chunks) and C16 (text chunks): reading a field that sits behind a prefix,
-  reading the field at the head of a concatenation, shift invariance of the decoder loops.
+  Helper lemmas for C17 (index chunks): shift invariance of the decoder loops, the loops on encoded tables,
+  the key-table fold as a grouping, the version-word case analysis, the six round trips.
 -/
 import Drx.Py
 import Drx.PyI
@@ -8,70 +8,9 @@ import Drx.Riff
 import Drx.Idx
 import Drx.IdxSpec
 import DrxProofs.Py
+import DrxProofs.Fields
 namespace Drx
 open Drx.Idx Drx.IdxSpec
-
-/-! ### slices and fields behind a prefix -/
-
-theorem slice_skip (pre rest : List α) (a b : Nat) (h : pre.length ≤ a) :
-    slice (pre ++ rest) a b = slice rest (a - pre.length) (b - pre.length) := by
-  unfold slice
-  rw [List.drop_append, List.drop_of_length_le h, List.nil_append]
-  congr 1
-  omega
-
-theorem slice_zero_append (x post : List α) (n : Nat) (h : n = x.length) : slice (x ++ post) 0 n = x := by
-  subst h; simp [slice]
-
-theorem getS_skip (o : Order) (k : Nat) (pre rest : Bytes) (off : Nat) (h : pre.length ≤ off) :
-    getS o k (pre ++ rest) off = getS o k rest (off - pre.length) := by
-  unfold getS
-  rw [slice_skip _ _ _ _ h]
-  have : off + k - pre.length = off - pre.length + k := by omega
-  rw [this]
-
-theorem getU_skip (o : Order) (k : Nat) (pre rest : Bytes) (off : Nat) (h : pre.length ≤ off) :
-    getU o k (pre ++ rest) off = getU o k rest (off - pre.length) := by
-  unfold getU
-  rw [slice_skip _ _ _ _ h]
-  have : off + k - pre.length = off - pre.length + k := by omega
-  rw [this]
-
-theorem byteAt_skip (pre rest : Bytes) (i : Nat) (h : pre.length ≤ i) :
-    byteAt (pre ++ rest) i = byteAt rest (i - pre.length) := by
-  unfold byteAt
-  rw [List.getElem?_append_right h]
-
-theorem byteAt_here (b : UInt8) (post : Bytes) : byteAt (b :: post) 0 = .ok b := by
-  simp [byteAt]
-
-theorem s32_range {i : Int} (h : s32 i) : -((2 ^ (8 * 4 - 1) : Nat) : Int) ≤ i ∧ i < ((2 ^ (8 * 4 - 1) : Nat) : Int) := by
-  unfold s32 at h
-  have : (2 ^ (8 * 4 - 1) : Nat) = 2147483648 := by decide
-  rw [this]; omega
-
-theorem s16_range {i : Int} (h : s16 i) : -((2 ^ (8 * 2 - 1) : Nat) : Int) ≤ i ∧ i < ((2 ^ (8 * 2 - 1) : Nat) : Int) := by
-  unfold s16 at h
-  have : (2 ^ (8 * 2 - 1) : Nat) = 32768 := by decide
-  rw [this]; omega
-
-theorem getS4_here (o : Order) (v : Int) (post : Bytes) (h : s32 v) : getS o 4 (encS o 4 v ++ post) 0 = .ok v := by
-  unfold getS
-  rw [slice_zero_append _ _ _ (by simp)]
-  exact unpackS_encS o 4 (by decide) v (s32_range h).1 (s32_range h).2
-
-theorem getS2_here (o : Order) (v : Int) (post : Bytes) (h : s16 v) : getS o 2 (encS o 2 v ++ post) 0 = .ok v := by
-  unfold getS
-  rw [slice_zero_append _ _ _ (by simp)]
-  exact unpackS_encS o 2 (by decide) v (s16_range h).1 (s16_range h).2
-
-theorem getU_here (o : Order) (k n : Nat) (post : Bytes) (h : n < 256 ^ k) : getU o k (encOrd o k n ++ post) 0 = .ok n := by
-  unfold getU
-  rw [slice_zero_append _ _ _ (by simp)]
-  exact unpackU_encOrd o k n h
-
-theorem s32_ofNat (n : Nat) (h : n < 2147483648) : s32 (n : Int) := by unfold s32; omega
-theorem s16_ofNat (n : Nat) (h : n < 32768) : s16 (n : Int) := by unfold s16; omega
 
 /-! ### key table -/
 
@@ -651,12 +590,42 @@ theorem versionClass_word (w : Nat) (h : w < 65536) : versionClass (toSigned 16 
     have b : ((w : Int) - (65536 : Nat)) % 256 = ((w % 256 : Nat) : Int) := by omega
     rw [a, b]
 
-theorem getS_ord_here (o : Order) (k n : Nat) (post : Bytes) (h : n < 256 ^ k) :
-    getS o k (encOrd o k n ++ post) 0 = .ok (toSigned (8 * k) n) := by
-  unfold getS unpackS
-  rw [slice_zero_append _ _ _ (by simp)]
-  simp [ordNat_encOrd_of_lt o k n h]
 
+theorem lookupName_mem (l : List (Int × String)) (x : Int) (v : String) (h : lookupName l x = some v) : (x, v) ∈ l := by
+  induction l with
+  | nil => simp [lookupName] at h
+  | cons p ps ih =>
+    obtain ⟨k, w⟩ := p
+    unfold lookupName at h
+    by_cases hk : k = x
+    · simp only [hk, if_true, Option.some.injEq] at h
+      simp [hk, h]
+    · simp only [hk, if_false] at h
+      exact List.mem_cons_of_mem _ (ih h)
+
+/-- two association lists that contain each other's entries (as lookups) agree on every key -/
+theorem lookupName_ext (A B : List (Int × String))
+    (hab : ∀ p ∈ A, lookupName B p.1 = some p.2) (hba : ∀ p ∈ B, lookupName A p.1 = some p.2) (x : Int) :
+    lookupName A x = lookupName B x := by
+  cases ha : lookupName A x with
+  | some v => exact (hab _ (lookupName_mem A x v ha)).symm
+  | none =>
+    cases hb : lookupName B x with
+    | none => rfl
+    | some w =>
+      have := hba _ (lookupName_mem B x w hb)
+      simp only [ha] at this
+      cases this
+
+/-- the generated DIR_PALETTE_NAMES and the spec's table of built-in palettes name the same palettes (any order) -/
+theorem paletteNames_agree :
+    (∀ p ∈ Gen.IdxNames.paletteNames, lookupName builtinPalettes p.1 = some p.2) ∧
+    (∀ p ∈ builtinPalettes, lookupName Gen.IdxNames.paletteNames p.1 = some p.2) := by decide
+
+theorem paletteName_eq_spec (v : Int) : paletteName v = specPaletteName v := by
+  unfold paletteName specPaletteName
+  simp only [lookupName_ext _ _ paletteNames_agree.1 paletteNames_agree.2]
+  rfl
 
 theorem encVwcf_length (s : VwcfSpec) (hv : s.valid) : (encVwcf s).length = 80 + s.tail.length := by
   obtain ⟨_, _, _, _, _, _, _, _, h1, h2, _, h3, _, _⟩ := hv
@@ -699,6 +668,6 @@ theorem parseVwcf_encVwcf (s : VwcfSpec) (hv : s.valid) : parseVwcf (encVwcf s) 
   unfold parseVwcf
   rw [q0, q1, q2, q3, q4, q5, q6, q7, q8, q9, hlen]
   simp only [bind, Except.bind, ne_eq, not_true_eq_false, if_false, VwcfSpec.meaning, hcls]
-  cases hc : specClass (s.word / 256) (s.word % 256) <;> simp [paletteOffset, q10, q11, Except.map, pure, Except.pure]
+  cases hc : specClass (s.word / 256) (s.word % 256) <;> simp [paletteOffset, q10, q11, Except.map, pure, Except.pure, paletteName_eq_spec]
 
 end Drx
